@@ -84,6 +84,8 @@ func (s *scheduler) sink(point string, kv ...any) {
 		seq := s.env.Next()
 		ver := s.versionOf(kv)
 		s.env.Emit(Event{Ev: "swap", ID: fmt.Sprintf("x%d", seq), Seq: seq, Ver: ver})
+		s.env.swapVer.Store(int64(ver))
+		s.env.swapAt.Store(time.Now().UnixNano())
 	case "signer.load.done":
 		s.mu.Lock()
 		ch := s.done
